@@ -75,6 +75,7 @@ typedef struct proc {
     uint64_t last_nonzero_ret_seq;   /* event seq of the last non-success return (for narrow relaxations) */
     double last_signal_time;
     bool ran_this_event, named_this_event, prio_touched_this_event;
+    uint64_t call_evseq; uint64_t rel_evseq[MAXRES];
 } proc;
 
 typedef struct { uint64_t handle; bool pending, executed, cancelled; double time; double done_time; int64_t prio; } hevent;
@@ -127,6 +128,7 @@ int proc_of(const struct cmb_process *pp);
 void proc_end(proc *pr, int endkind, void *val);
 cause *cause_add(proc *pr, int kind, int64_t value, double due, bool must);
 uint64_t true_state(int kind, int idx);
+int guard_of_wait(const proc *pr);
 
 /* procs_mon.c */
 void mon_before_event(void);
